@@ -241,3 +241,57 @@ pub fn json_map(j: &str) -> std::collections::BTreeMap<String, serde_json::Value
 		_ => Default::default(),
 	}
 }
+
+
+/// Documented lower bounds of the integer parameters (and MA periods), parsed from the doc comments of
+/// the configuration structs in the tree under test: `Range in [2; ...)` -> 2, `(period1; ...)` is not a
+/// literal and is skipped. Key: (indicator NAME, field name).
+pub fn documented_minimums() -> std::collections::HashMap<(String, String), u64> {
+	let root = std::env::var("YATA_SRC").unwrap_or_else(|_| "/repo".into());
+	let mut out = std::collections::HashMap::new();
+	let Ok(dir) = std::fs::read_dir(format!("{root}/src/indicators")) else { return out };
+	for e in dir.flatten() {
+		let Ok(t) = std::fs::read_to_string(e.path()) else { continue };
+		let Some(name) = t.lines().find_map(|l| l.trim().strip_prefix("const NAME: &'static str = \"").map(|r| r.trim_end_matches("\";").to_string())) else { continue };
+		let mut docs = String::new();
+		let mut in_struct = false;
+		for l in t.lines() {
+			let tl = l.trim();
+			if tl.starts_with("pub struct ") && tl.ends_with('{') && !in_struct && !tl.contains("Instance") {
+				in_struct = true;
+				docs.clear();
+				continue;
+			}
+			if !in_struct {
+				continue;
+			}
+			if tl == "}" {
+				break;
+			}
+			if let Some(d) = tl.strip_prefix("///") {
+				docs.push_str(d);
+				docs.push('\n');
+				continue;
+			}
+			if let Some(rest) = tl.strip_prefix("pub ") {
+				if let Some((field, _)) = rest.split_once(':') {
+					if let Some(pos) = docs.find("ange in") {
+						let tail: String = docs[pos + 7..].chars().filter(|c| !matches!(c, '\\' | '*' | '`' | ' ')).collect();
+						let mut it = tail.chars();
+						if let Some(br) = it.next() {
+							let num: String = it.take_while(|c| *c != ';').collect();
+							if (br == '[' || br == '(') && !num.is_empty() && num.chars().all(|c| c.is_ascii_digit()) {
+								let n: u64 = num.parse().unwrap_or(0);
+								out.insert((name.clone(), field.trim().to_string()), if br == '(' { n + 1 } else { n });
+							}
+						}
+					}
+				}
+				docs.clear();
+			} else if !tl.starts_with("#[") {
+				docs.clear();
+			}
+		}
+	}
+	out
+}
